@@ -195,6 +195,33 @@ def block(stmts, reads, shows):
         # statements that do not touch the stream (building lists for display, ...) are not part of the layout
 
 
+TABLES = [
+    # (label, file, class, function, dict names): every  <dict>["key"] = <expr>  of the function, in source order, with the conditions it is under
+    ("Summary", "modules/pel/peltool/peltool.py", None, "parsePELSummary", ("summary",)),
+]
+
+
+def table_of(f, names):
+    out = []
+
+    def walk(stmts, conds):
+        for st in stmts:
+            if isinstance(st, ast.Assign) and len(st.targets) == 1:
+                t = st.targets[0]
+                if isinstance(t, ast.Subscript) and isinstance(t.value, ast.Name) and t.value.id in names and isinstance(t.slice, ast.Constant):
+                    out.append((str(t.slice.value), (" and ".join(conds) + " => " if conds else "") + ast.unparse(st.value)))
+            elif isinstance(st, ast.If):
+                walk(st.body, conds + [ast.unparse(st.test)])
+                walk(st.orelse, conds + ["not (" + ast.unparse(st.test) + ")"])
+            elif isinstance(st, (ast.For, ast.While, ast.With, ast.Try)):
+                walk(st.body, conds)
+                for h in getattr(st, "handlers", []):
+                    walk(h.body, conds + ["except"])
+                walk(getattr(st, "orelse", []), conds)
+    walk(f.body, [])
+    return out
+
+
 def find(tree, cls, name):
     scope = tree.body
     if cls:
@@ -232,6 +259,16 @@ def main():
             defs.append("(* STUB: %s could not be extracted: %s *)" % (label, reason))
             defs.append("Definition ok_%s : bool := false." % label)
             defs.append("Definition rd_%s : list ((list N) * (list N) * nat * (list N)) := []." % label)
+            defs.append("Definition sh_%s : list ((list N) * (list N)) := []." % label)
+    for label, path, cls, fn, names in TABLES:
+        try:
+            tree = ast.parse(open(os.path.join(ROOT, path)).read())
+            tb = table_of(find(tree, cls, fn), names)
+            defs.append("Definition ok_%s : bool := true." % label)
+            defs.append("Definition sh_%s : list ((list N) * (list N)) :=\n  [%s]." % (label, ";\n   ".join("(%s, %s)" % (T(k), T(e)) for k, e in tb)))
+        except (Unsupported, OSError, SyntaxError) as e:
+            sys.stderr.write("extract_layouts: %s: %s\n" % (label, e))
+            defs.append("Definition ok_%s : bool := false." % label)
             defs.append("Definition sh_%s : list ((list N) * (list N)) := []." % label)
     text = "\n".join(head + defs) + "\n"
     if os.path.exists(out) and open(out).read() == text:
